@@ -96,6 +96,13 @@ func Unmarshal(s string, k protoreflect.Kind, evs protoreflect.EnumValueDescript
 			v = math.NaN()
 		default:
 			v, err = strconv.ParseFloat(s, 64)
+			if err == nil && k == protoreflect.FloatKind {
+				// Parse again with the precision of the field: converting
+				// the float64 result would round twice.
+				if v32, err := strconv.ParseFloat(s, 32); err == nil {
+					v = v32
+				}
+			}
 		}
 		if err == nil {
 			if k == protoreflect.FloatKind {
